@@ -39,6 +39,10 @@ TRUSTED = [
     "(QubitCircuit.compute_unitary, property C01); checked numerically on every case",
     "meaning of (classical_controls, classical_control_value): first listed bit is the most significant (documented in Gate, property C02)",
     "programs where a register or gate name is declared twice, or a formal parameter is called `pi`, are not modelled",
+    "import_sound / import_sound_unitary are stated against spec_prog with the importer's signature table sig0 as the set of library-level "
+    "gates (equal to the standard's table by shortcut_table_complete); the meaning of a library-level gate is its qelib1.inc body expanded "
+    "symbolically to U/CX and instantiated at the atoms of its parameter values (aenv: an arbitrary assignment of units to value lists); "
+    "import_total assumes that no division by zero occurs (vdiv total); spec-side totality (wf p -> spec_prog p <> None) is not proved",
     "equivalence used: for every record of measurement outcomes the unnormalised branch state agrees up to a unit scalar that may "
     "depend on the record (records are classical, so this is unobservable); a single common scalar is impossible because the "
     "library's X, H, S, T, CZ.. differ from the qelib1 definitions by gate-dependent phases inside if-statements",
